@@ -254,11 +254,124 @@ impl VfPathExt for std::path::Path {
     }
 }
 
-// ---- the `blake3` crate as seen by b3sum: OUT_LEN and Hash::from([u8; 32]) -------------------------
+// ---- R21: standard output as a ghost log ------------------------------------------------------------
+// Extraction rule R21 (unit option `print_model`) threads `vf_out: &mut VfStdout` through the functions that
+// print and turns `print!("lit {} lit", a)` into `vf_stdout_write(vf_out, "lit "); vf_stdout_write_disp(vf_out,
+// &(a)); vf_stdout_write(vf_out, " lit")` (`println!` appends `vf_stdout_write(vf_out, "\n")`). The log is the
+// sequence of chars written so far. ASSUMED: std's `print!` writes the literal pieces and the `Display`
+// renderings of the arguments in format-string order, nothing else; `Display` of `String` / `str` / `&T` is the
+// string itself (std's impls `f.pad(self)` without width / precision flags, which `{}` does not set).
+pub struct VfStdout {
+    pub log: Ghost<Seq<char>>,
+}
+
+impl VfStdout {
+    pub open spec fn view(&self) -> Seq<char> {
+        self.log@
+    }
+}
+
+#[verifier::external_body]
+pub fn vf_stdout_write(out: &mut VfStdout, s: &str)
+    ensures
+        final(out)@ == old(out)@ + s@,
+{
+    unimplemented!()
+}
+
+pub trait VfDisplay {
+    spec fn vf_disp(&self) -> Seq<char>;
+}
+
+impl VfDisplay for String {
+    open spec fn vf_disp(&self) -> Seq<char> {
+        self@
+    }
+}
+
+impl VfDisplay for str {
+    open spec fn vf_disp(&self) -> Seq<char> {
+        self@
+    }
+}
+
+impl<T: VfDisplay + ?Sized> VfDisplay for &T {
+    open spec fn vf_disp(&self) -> Seq<char> {
+        (**self).vf_disp()
+    }
+}
+
+#[verifier::external_body]
+pub fn vf_stdout_write_disp<T: VfDisplay + ?Sized>(out: &mut VfStdout, x: &T)
+    ensures
+        final(out)@ == old(out)@ + x.vf_disp(),
+{
+    unimplemented!()
+}
+
+// ---- the extended output of a hasher as seen by b3sum -------------------------------------------------
+// byte `i` of the output stream of the finalized hasher `id` (C03 decides on the real crate that an
+// OutputReader serves one coherent stream)
+pub uninterp spec fn sp_xof_byte(id: int, i: int) -> u8;
+
+pub open spec fn sp_xof_bytes(id: int, from: int, n: int) -> Seq<u8> {
+    Seq::new(n as nat, |j: int| sp_xof_byte(id, from + j))
+}
+
+// the `hex` crate: `hex::encode(data)` is the lowercase hex string of the bytes (monomorphic in `&[u8]`; the
+// real function is generic in `T: AsRef<[u8]>`, another argument type is a type error = undecided)
+pub mod hex {
+    use vstd::prelude::*;
+    use crate::*;
+
+    #[verifier::external_body]
+    pub fn encode(data: &[u8]) -> (r: String)
+        ensures
+            r@ == sp_hex_encode(data@),
+    {
+        unimplemented!()
+    }
+}
+
+// ---- the `blake3` crate as seen by b3sum: OUT_LEN, BLOCK_LEN, Hash::from([u8; 32]), Hasher, OutputReader --
 pub mod blake3 {
     use vstd::prelude::*;
 
     pub const OUT_LEN: usize = 32;
+
+    pub const BLOCK_LEN: usize = 64;
+
+    // only stored in `Args` (never touched by the functions of this unit)
+    #[verifier::external_body]
+    pub struct Hasher {
+        _p: u8,
+    }
+
+    // OutputReader: a stream identity and a position. `fill` is the contract the `xof` unit (C03) VERIFIES on the
+    // real crate: the next buf.len() bytes of the stream, position advanced by buf.len(), same stream; the
+    // position may not pass u64::MAX.
+    #[verifier::external_body]
+    pub struct OutputReader {
+        _p: u8,
+    }
+
+    impl OutputReader {
+        pub uninterp spec fn id(&self) -> int;
+
+        pub uninterp spec fn pos(&self) -> int;
+
+        #[verifier::external_body]
+        pub fn fill(&mut self, buf: &mut [u8])
+            requires
+                old(self).pos() + old(buf)@.len() <= u64::MAX,
+            ensures
+                final(self).id() == old(self).id(),
+                final(self).pos() == old(self).pos() + old(buf)@.len(),
+                final(buf)@ == crate::sp_xof_bytes(old(self).id(), old(self).pos(), old(buf)@.len() as int),
+        {
+            unimplemented!()
+        }
+    }
 
     // blake3::Hash is a wrapper of its 32 bytes; `From<[u8; OUT_LEN]>` stores them (src/lib.rs, C14)
     pub struct Hash(pub [u8; 32]);
